@@ -70,7 +70,9 @@ use crate::{
 use crate::{FileMetaTableBuilder, meta::FileMetaTable};
 use dicom_core::dictionary::{DataDictionary, DataDictionaryEntry};
 use dicom_core::header::{GroupNumber, HasLength, Header};
-use dicom_core::value::{C, DataSetSequence, PixelFragmentSequence, Value, ValueType};
+use dicom_core::value::{
+    C, DataSetSequence, ModifyValueError, PixelFragmentSequence, Value, ValueType,
+};
 use dicom_core::{DataElement, Length, PrimitiveValue, Tag, VR};
 use dicom_dictionary_std::{StandardDataDictionary, tags, uids};
 use dicom_encoding::transfer_syntax::TransferSyntaxIndex;
@@ -1706,28 +1708,56 @@ where
         }
     }
 
-    fn apply_push_str_impl(&mut self, tag: Tag, string: Cow<'static, str>) -> ApplyResult {
-        if let Some(e) = self.entries.remove(&tag) {
-            let (header, value) = e.into_parts();
-            match value {
-                Value::Primitive(mut v) => {
-                    self.invalidate_if_charset_changed(tag);
-                    // extend value
-                    v.extend_str([string]).context(ModifySnafu)?;
-                    // reinsert element
-                    self.put(DataElement::new(tag, header.vr, v));
-                    Ok(())
-                }
-
-                Value::PixelSequence(..) => IncompatibleTypesSnafu {
-                    kind: ValueType::PixelSequence,
-                }
-                .fail(),
-                Value::Sequence(..) => IncompatibleTypesSnafu {
-                    kind: ValueType::DataSetSequence,
-                }
-                .fail(),
+    /// Extend the primitive value of the element with the given tag in place.
+    ///
+    /// Returns `None` if the element does not exist.
+    /// If the extension fails, the element is left as it was.
+    fn apply_extend_impl(
+        &mut self,
+        tag: Tag,
+        f: impl FnOnce(&mut PrimitiveValue) -> Result<(), ModifyValueError>,
+    ) -> Option<ApplyResult> {
+        let e = self.entries.get_mut(&tag)?;
+        match e.value() {
+            Value::Primitive(_) => {}
+            Value::PixelSequence(..) => {
+                return Some(
+                    IncompatibleTypesSnafu {
+                        kind: ValueType::PixelSequence,
+                    }
+                    .fail(),
+                );
             }
+            Value::Sequence(..) => {
+                return Some(
+                    IncompatibleTypesSnafu {
+                        kind: ValueType::DataSetSequence,
+                    }
+                    .fail(),
+                );
+            }
+        }
+
+        let mut f = Some(f);
+        let mut result = Ok(());
+        e.update_value(|value| {
+            if let (Value::Primitive(v), Some(f)) = (value, f.take()) {
+                result = f(v);
+            }
+        });
+        if result.is_ok() {
+            self.len = Length::UNDEFINED;
+        }
+        Some(result.context(ModifySnafu))
+    }
+
+    fn apply_push_str_impl(&mut self, tag: Tag, string: Cow<'static, str>) -> ApplyResult {
+        // extend value in place if the element exists
+        if let Some(result) = self.apply_extend_impl(tag, |v| v.extend_str([&*string])) {
+            if result.is_ok() {
+                self.invalidate_if_charset_changed(tag);
+            }
+            result
         } else {
             // infer VR from tag
             let vr = dicom_dictionary_std::StandardDataDictionary
@@ -1741,26 +1771,9 @@ where
     }
 
     fn apply_push_i32_impl(&mut self, tag: Tag, integer: i32) -> ApplyResult {
-        if let Some(e) = self.entries.remove(&tag) {
-            let (header, value) = e.into_parts();
-            match value {
-                Value::Primitive(mut v) => {
-                    // extend value
-                    v.extend_i32([integer]).context(ModifySnafu)?;
-                    // reinsert element
-                    self.put(DataElement::new(tag, header.vr, v));
-                    Ok(())
-                }
-
-                Value::PixelSequence(..) => IncompatibleTypesSnafu {
-                    kind: ValueType::PixelSequence,
-                }
-                .fail(),
-                Value::Sequence(..) => IncompatibleTypesSnafu {
-                    kind: ValueType::DataSetSequence,
-                }
-                .fail(),
-            }
+        // extend value in place if the element exists
+        if let Some(result) = self.apply_extend_impl(tag, |v| v.extend_i32([integer])) {
+            result
         } else {
             // infer VR from tag
             let vr = dicom_dictionary_std::StandardDataDictionary
@@ -1774,26 +1787,9 @@ where
     }
 
     fn apply_push_u32_impl(&mut self, tag: Tag, integer: u32) -> ApplyResult {
-        if let Some(e) = self.entries.remove(&tag) {
-            let (header, value) = e.into_parts();
-            match value {
-                Value::Primitive(mut v) => {
-                    // extend value
-                    v.extend_u32([integer]).context(ModifySnafu)?;
-                    // reinsert element
-                    self.put(DataElement::new(tag, header.vr, v));
-                    Ok(())
-                }
-
-                Value::PixelSequence(..) => IncompatibleTypesSnafu {
-                    kind: ValueType::PixelSequence,
-                }
-                .fail(),
-                Value::Sequence(..) => IncompatibleTypesSnafu {
-                    kind: ValueType::DataSetSequence,
-                }
-                .fail(),
-            }
+        // extend value in place if the element exists
+        if let Some(result) = self.apply_extend_impl(tag, |v| v.extend_u32([integer])) {
+            result
         } else {
             // infer VR from tag
             let vr = dicom_dictionary_std::StandardDataDictionary
@@ -1807,26 +1803,9 @@ where
     }
 
     fn apply_push_i16_impl(&mut self, tag: Tag, integer: i16) -> ApplyResult {
-        if let Some(e) = self.entries.remove(&tag) {
-            let (header, value) = e.into_parts();
-            match value {
-                Value::Primitive(mut v) => {
-                    // extend value
-                    v.extend_i16([integer]).context(ModifySnafu)?;
-                    // reinsert element
-                    self.put(DataElement::new(tag, header.vr, v));
-                    Ok(())
-                }
-
-                Value::PixelSequence(..) => IncompatibleTypesSnafu {
-                    kind: ValueType::PixelSequence,
-                }
-                .fail(),
-                Value::Sequence(..) => IncompatibleTypesSnafu {
-                    kind: ValueType::DataSetSequence,
-                }
-                .fail(),
-            }
+        // extend value in place if the element exists
+        if let Some(result) = self.apply_extend_impl(tag, |v| v.extend_i16([integer])) {
+            result
         } else {
             // infer VR from tag
             let vr = dicom_dictionary_std::StandardDataDictionary
@@ -1840,26 +1819,9 @@ where
     }
 
     fn apply_push_u16_impl(&mut self, tag: Tag, integer: u16) -> ApplyResult {
-        if let Some(e) = self.entries.remove(&tag) {
-            let (header, value) = e.into_parts();
-            match value {
-                Value::Primitive(mut v) => {
-                    // extend value
-                    v.extend_u16([integer]).context(ModifySnafu)?;
-                    // reinsert element
-                    self.put(DataElement::new(tag, header.vr, v));
-                    Ok(())
-                }
-
-                Value::PixelSequence(..) => IncompatibleTypesSnafu {
-                    kind: ValueType::PixelSequence,
-                }
-                .fail(),
-                Value::Sequence(..) => IncompatibleTypesSnafu {
-                    kind: ValueType::DataSetSequence,
-                }
-                .fail(),
-            }
+        // extend value in place if the element exists
+        if let Some(result) = self.apply_extend_impl(tag, |v| v.extend_u16([integer])) {
+            result
         } else {
             // infer VR from tag
             let vr = dicom_dictionary_std::StandardDataDictionary
@@ -1873,26 +1835,9 @@ where
     }
 
     fn apply_push_f32_impl(&mut self, tag: Tag, number: f32) -> ApplyResult {
-        if let Some(e) = self.entries.remove(&tag) {
-            let (header, value) = e.into_parts();
-            match value {
-                Value::Primitive(mut v) => {
-                    // extend value
-                    v.extend_f32([number]).context(ModifySnafu)?;
-                    // reinsert element
-                    self.put(DataElement::new(tag, header.vr, v));
-                    Ok(())
-                }
-
-                Value::PixelSequence(..) => IncompatibleTypesSnafu {
-                    kind: ValueType::PixelSequence,
-                }
-                .fail(),
-                Value::Sequence(..) => IncompatibleTypesSnafu {
-                    kind: ValueType::DataSetSequence,
-                }
-                .fail(),
-            }
+        // extend value in place if the element exists
+        if let Some(result) = self.apply_extend_impl(tag, |v| v.extend_f32([number])) {
+            result
         } else {
             // infer VR from tag
             let vr = dicom_dictionary_std::StandardDataDictionary
@@ -1906,26 +1851,9 @@ where
     }
 
     fn apply_push_f64_impl(&mut self, tag: Tag, number: f64) -> ApplyResult {
-        if let Some(e) = self.entries.remove(&tag) {
-            let (header, value) = e.into_parts();
-            match value {
-                Value::Primitive(mut v) => {
-                    // extend value
-                    v.extend_f64([number]).context(ModifySnafu)?;
-                    // reinsert element
-                    self.put(DataElement::new(tag, header.vr, v));
-                    Ok(())
-                }
-
-                Value::PixelSequence(..) => IncompatibleTypesSnafu {
-                    kind: ValueType::PixelSequence,
-                }
-                .fail(),
-                Value::Sequence(..) => IncompatibleTypesSnafu {
-                    kind: ValueType::DataSetSequence,
-                }
-                .fail(),
-            }
+        // extend value in place if the element exists
+        if let Some(result) = self.apply_extend_impl(tag, |v| v.extend_f64([number])) {
+            result
         } else {
             // infer VR from tag
             let vr = dicom_dictionary_std::StandardDataDictionary
